@@ -972,109 +972,139 @@ impl<'a, R: 'a + Read> Read for CompressionLayerFailSafeReader<'a, R> {
                     .into());
                 }
 
-                if read_offset == cache_filled_offset
-                    && cache_filled_offset == FAIL_SAFE_BUFFER_SIZE
-                {
-                    // Cache is full and there is no more data to read from
-                    // -> cache must be reset
-                    cache.fill(0);
-                    cache_filled_offset = 0;
-                    read_offset = 0;
-                }
+                // Loop until some bytes are produced, the end of the data is
+                // really reached or an error occurs: returning `Ok(0)` for any
+                // other reason would wrongly signal an end of stream
+                let ret = loop {
+                    if read_offset == cache_filled_offset
+                        && cache_filled_offset == FAIL_SAFE_BUFFER_SIZE
+                    {
+                        // Cache is full and there is no more data to read from
+                        // -> cache must be reset
+                        cache.fill(0);
+                        cache_filled_offset = 0;
+                        read_offset = 0;
+                    }
 
-                // Try to fill the cache from the inner source
-                match inner.read(&mut cache[cache_filled_offset..]) {
-                    Ok(read) => {
-                        if read == 0 && read_offset == cache_filled_offset {
-                            // No more data from inner and the cache has been fully read
-                            // -> return either an error or Ok(0)
-                            if uncompressed_read > 0 {
-                                // Inside a stream and no more data available
-                                return Err(io::Error::new(
-                                    io::ErrorKind::UnexpectedEof,
-                                    "No more data from the inner layer",
-                                ));
+                    // Try to fill the cache from the inner source
+                    let mut inner_eof = false;
+                    match inner.read(&mut cache[cache_filled_offset..]) {
+                        Ok(read) => {
+                            // No more data from inner (the cache was not full)
+                            inner_eof = read == 0 && cache_filled_offset < FAIL_SAFE_BUFFER_SIZE;
+                            cache_filled_offset += read;
+                        }
+                        error => {
+                            if read_offset == cache_filled_offset {
+                                // No more data in the cache
+                                break error;
                             }
-                            // No more data available but not in a stream
-                            return Ok(0);
+                            // There is still data in the cache to read
+                            // Will fail and return the error on the next .read()
                         }
-                        cache_filled_offset += read;
                     }
-                    error => {
-                        if read_offset == cache_filled_offset {
-                            // No more data in the cache
-                            return error;
+
+                    // Number of byte available in the source
+                    let mut available_in = cache_filled_offset - read_offset;
+                    // IN: Offset in the source
+                    // OUT: Offset in the source after the decompression pass
+                    let mut input_offset = 0;
+                    // Available spaces in the output
+                    let mut available_out = std::cmp::min(
+                        buf.len(),
+                        (UNCOMPRESSED_DATA_SIZE - uncompressed_read) as usize,
+                    );
+                    // IN: Offset in the output
+                    // OUT: number of bytes written in the output
+                    let mut output_offset = 0;
+                    // OUT: total number of byte written for the current stream (cumulative)
+                    let mut written = 0;
+
+                    // The decompressor is called even without new input: it
+                    // may still have pending output
+                    match brotli::BrotliDecompressStream(
+                        &mut available_in,
+                        &mut input_offset,
+                        &cache[read_offset..cache_filled_offset],
+                        &mut available_out,
+                        &mut output_offset,
+                        buf,
+                        &mut written,
+                        &mut state,
+                    ) {
+                        brotli::BrotliResult::ResultSuccess => {
+                            // End of stream reached
+
+                            // Rewind the cache to the actual start of the new block
+                            // input_offset \in [0; cache_filled_offset - read_offset[
+                            read_offset += input_offset;
+
+                            // Reset others
+                            state = Box::new(BrotliState::new(
+                                StandardAlloc::default(),
+                                StandardAlloc::default(),
+                                StandardAlloc::default(),
+                            ));
+                            uncompressed_read = 0;
+
+                            if output_offset > 0 || buf.is_empty() {
+                                break Ok(output_offset);
+                            }
+                            // Nothing produced: go on with the next stream
                         }
-                        // There is still data in the cache to read
-                        // Will fail and return the error on the next .read()
+                        brotli::BrotliResult::NeedsMoreInput => {
+                            // Bytes may have been read and produced
+                            read_offset += input_offset;
+                            uncompressed_read += match u32::try_from(output_offset) {
+                                Ok(value) => value,
+                                Err(_) => {
+                                    break Err(io::Error::new(
+                                        io::ErrorKind::InvalidData,
+                                        "Integer conversion failed",
+                                    ));
+                                }
+                            };
+
+                            if output_offset > 0 {
+                                break Ok(output_offset);
+                            }
+                            if inner_eof && read_offset == cache_filled_offset {
+                                // No more data from inner and the cache has been fully read
+                                // -> return either an error or Ok(0)
+                                if uncompressed_read > 0 {
+                                    // Inside a stream and no more data available
+                                    break Err(io::Error::new(
+                                        io::ErrorKind::UnexpectedEof,
+                                        "No more data from the inner layer",
+                                    ));
+                                }
+                                // No more data available but not in a stream
+                                break Ok(0);
+                            }
+                            // Nothing produced yet: get more input
+                        }
+                        brotli::BrotliResult::NeedsMoreOutput => {
+                            // Bytes may have been read and produced
+                            read_offset += input_offset;
+                            uncompressed_read += match u32::try_from(output_offset) {
+                                Ok(value) => value,
+                                Err(_) => {
+                                    break Err(io::Error::new(
+                                        io::ErrorKind::InvalidData,
+                                        "Integer conversion failed",
+                                    ));
+                                }
+                            };
+
+                            break Ok(output_offset);
+                        }
+                        brotli::BrotliResult::ResultFailure => {
+                            break Err(io::Error::new(
+                                io::ErrorKind::InvalidData,
+                                "Invalid Data while decompressing",
+                            ));
+                        }
                     }
-                }
-
-                // Number of byte available in the source
-                let mut available_in = cache_filled_offset - read_offset;
-                // IN: Offset in the source
-                // OUT: Offset in the source after the decompression pass
-                let mut input_offset = 0;
-                // Available spaces in the output
-                let mut available_out = std::cmp::min(
-                    buf.len(),
-                    (UNCOMPRESSED_DATA_SIZE - uncompressed_read) as usize,
-                );
-                // IN: Offset in the output
-                // OUT: number of bytes written in the output
-                let mut output_offset = 0;
-                // OUT: total number of byte written for the current stream (cumulative)
-                let mut written = 0;
-
-                let ret = match brotli::BrotliDecompressStream(
-                    &mut available_in,
-                    &mut input_offset,
-                    &cache[read_offset..cache_filled_offset],
-                    &mut available_out,
-                    &mut output_offset,
-                    buf,
-                    &mut written,
-                    &mut state,
-                ) {
-                    brotli::BrotliResult::ResultSuccess => {
-                        // End of stream reached
-
-                        // Rewind the cache to the actual start of the new block
-                        // input_offset \in [0; cache_filled_offset - read_offset[
-                        read_offset += input_offset;
-
-                        // Reset others
-                        state = Box::new(BrotliState::new(
-                            StandardAlloc::default(),
-                            StandardAlloc::default(),
-                            StandardAlloc::default(),
-                        ));
-                        uncompressed_read = 0;
-
-                        Ok(output_offset)
-                    }
-                    brotli::BrotliResult::NeedsMoreInput => {
-                        // Bytes may have been read and produced
-                        read_offset += input_offset;
-                        uncompressed_read += u32::try_from(output_offset).map_err(|_| {
-                            io::Error::new(io::ErrorKind::InvalidData, "Integer conversion failed")
-                        })?;
-
-                        Ok(output_offset)
-                    }
-                    brotli::BrotliResult::NeedsMoreOutput => {
-                        // Bytes may have been read and produced
-                        read_offset += input_offset;
-                        uncompressed_read += u32::try_from(output_offset).map_err(|_| {
-                            io::Error::new(io::ErrorKind::InvalidData, "Integer conversion failed")
-                        })?;
-
-                        Ok(output_offset)
-                    }
-                    brotli::BrotliResult::ResultFailure => Err(io::Error::new(
-                        io::ErrorKind::InvalidData,
-                        "Invalid Data while decompressing",
-                    )),
                 };
 
                 self.state = CompressionLayerFailSafeReaderState::InData {
